@@ -23,6 +23,9 @@ var gens = map[string]func(r *rand.Rand, run int, tier string) *Scenario{}
 // from run/N and sweep a fault position with run%N).
 var genSeed uint64
 
+// genTier is the tier of the run being generated: the thorough tier widens scenario sizes.
+var genTier string
+
 // shrinkers maps an engine to its candidate generator: it yields simplified copies.
 var shrinkers = map[string]func(sc *Scenario, yield func(c *Scenario) bool){}
 
@@ -113,6 +116,7 @@ func generate(prop string, seed uint64, run int, tier string) *Scenario {
 
 	r := newRng(seed, uint64(run), 1)
 	genSeed = seed
+	genTier = tier
 	sc := g(r, run, tier)
 
 	if sc == nil {
